@@ -179,7 +179,10 @@ def job(spec):
     rng = random.Random(seed)
     cps = corpus()
     pool = [x for x in TOKEN_RE.findall(rng.choice(cps)) if x.strip()][:400] + SYMS + ATTRS + ACTIONS + ['<', '>', '{', '}', '(', ')', ',', ';', ':', '=', '=>', '=>?', '*', '+', '?', '!', '#', '"', "'", 'pub', 'grammar', 'extern', 'enum', 'match', 'else', 'if', 'use', 'where', 'for', 'type', 'mut', '_', '..', '@L', '@R']
-    if kind == "token":
+    if kind == "probe_f12":
+        from .. import probes
+        data = probes.F12_TEXT.encode()
+    elif kind == "token":
         data = mutate_tokens(rng, rng.choice(cps), pool).encode()
     elif kind == "gen_token":
         g = rng.choice([gen.gen_core, gen.gen_loc, gen2.gen_recovery])(rng)
@@ -248,6 +251,7 @@ def run(tier, seed):
         for _ in range(int(n * frac)):
             specs.append((kind, base + i, bin_, chk.work, 20))
             i += 1
+    specs.append(("probe_f12", 0, bin_, chk.work, 20))     # deterministic probe of known finding F12
     results = core.pmap(job, specs, chunksize=32)
     keys = {}
     for r in results:
